@@ -365,6 +365,24 @@ def _est(case):
                                     "least squares" if crit == "mselin" else "mean", crit),
                                     "row %r leaf %d predicted %r expected %r %s" % (
                                         probes[k].tolist(), leaf, pred[k], exp[list(q).index(k)], desc))
+    # one predict call on tens of thousands of rows (vectorised paths for large batches): row t of the result is the prediction of row t
+    ysb = case["ys"][len(case["ys"]) // 3]
+    yb_ = numpy.array(ysb, dtype=numpy.float64)
+    for crit in ("mselin", "simple"):
+        try:
+            mb_ = PiecewiseTreeRegressor(criterion=crit, max_depth=2, min_samples_leaf=1).fit(X_c, yb_)
+            small = numpy.asarray(mb_.predict(probes))
+            reps = 40001 // len(probes) + 1
+            Q = numpy.tile(probes, (reps, 1))[:40001]
+            big = numpy.asarray(mb_.predict(Q))
+            cnt += 1
+            exp_big = numpy.tile(small, reps)[:40001]
+            if big.shape != exp_big.shape or not numpy.allclose(big, exp_big, rtol=1e-9, atol=1e-9):
+                w_ = numpy.nonzero(~numpy.isclose(big, exp_big, rtol=1e-9, atol=1e-9))[0] if big.shape == exp_big.shape else [-1]
+                bad("prediction != per-leaf %s|criterion=%s,batch of 40001 rows" % ("least squares" if crit == "mselin" else "mean", crit),
+                    "%d rows differ from the same rows predicted in a small batch, first %d design=%s y=%r" % (len(w_), w_[0], case["design"], ysb))
+        except Exception as e:
+            bad("raises %s|criterion=%s,batch of 40001 rows" % (type(e).__name__, crit), "%s design=%s y=%r" % (str(e)[:200], case["design"], ysb))
     # histories with a refused fit first (NaN target, rows/targets of different lengths, an invalid hyper-parameter corrected through
     # set_params), then a valid fit on the same object: the clauses hold for that model as for a fresh one
     ys = case["ys"][len(case["ys"]) // 2]
